@@ -10,7 +10,7 @@ RULE = ("programs drawn shape-first (chain/tree/comb/diamond/re-entry comb/stagg
 ASSUMPTIONS = ["item values are a function of (kind, argument) only, so every flush order must give the same answer",
                "flush orders are steered through get_priority tables (a superset of what the default tie-break can produce for batches of different kinds)"]
 
-CFG = dict(sync=True, ctx=("rec", "ov"), dag=True, orphans=True, convs=("call", "value", "wrapper"),
+CFG = dict(sync=True, ctx=("rec", "ov"), dag=True, orphans=True, reyield=True, convs=("call", "value", "wrapper"),
            shapes=("chain", "tree", "comb", "diamond", "reentry", "stagger", "free", "free"))
 
 
@@ -75,6 +75,7 @@ def check(prog, ctx):
     ctx.label("delivered-error", any(e and e[0] in ("caught", "syncexc") for rec in env.recs.values() for e in rec.got) or env.outcome[0] == "exc")
     ctx.label("sync-reentry", st["ops"].get("sync", 0) > 0)
     ctx.label("shared-or-reyielded", st["leaves"].get("ref", 0) > 0)
+    ctx.label("same-object-yielded-again", st["ops"].get("reyield", 0) > 0)
     ctx.label("outcome=" + env.outcome[0])
     ctx.nontrivial(prog, st["tasks"] >= 2 and nflush >= 1 and (st["nested"] or st["kinds"] >= 2 or st["leaves"].get("ref", 0) > 0))
     return viol
